@@ -144,7 +144,7 @@ func (ex *Exec) decodeInto(t types.Type, v Value, fr *frame, depth int) (Value, 
 		switch named.String() {
 		case "time.Time":
 			if iv.T == nil {
-				return ex.mkTime(0), true
+				return ex.mkTime(int64(0)), true
 			}
 			s, isStr := iv.V.(string)
 			if !isStr || !strings.HasPrefix(s, "T") {
